@@ -173,10 +173,12 @@ func (o *Array) BinaryOp(op token.Token, rhs Object) (Object, error) {
 	if rhs, ok := rhs.(*Array); ok {
 		switch op {
 		case token.Add:
-			if len(rhs.Value) == 0 {
-				return o, nil
-			}
-			return &Array{Value: append(o.Value, rhs.Value...)}, nil
+			// always allocate: the result must not share (or overwrite) the
+			// backing storage of the left operand
+			res := make([]Object, 0, len(o.Value)+len(rhs.Value))
+			res = append(res, o.Value...)
+			res = append(res, rhs.Value...)
+			return &Array{Value: res}, nil
 		}
 	}
 	return nil, ErrInvalidOperator
@@ -399,7 +401,10 @@ func (o *Bytes) BinaryOp(op token.Token, rhs Object) (Object, error) {
 			if len(o.Value)+len(rhs.Value) > MaxBytesLen {
 				return nil, ErrBytesLimit
 			}
-			return &Bytes{Value: append(o.Value, rhs.Value...)}, nil
+			res := make([]byte, 0, len(o.Value)+len(rhs.Value))
+			res = append(res, o.Value...)
+			res = append(res, rhs.Value...)
+			return &Bytes{Value: res}, nil
 		}
 	}
 	return nil, ErrInvalidOperator
@@ -834,7 +839,10 @@ func (o *ImmutableArray) BinaryOp(op token.Token, rhs Object) (Object, error) {
 	if rhs, ok := rhs.(*ImmutableArray); ok {
 		switch op {
 		case token.Add:
-			return &Array{Value: append(o.Value, rhs.Value...)}, nil
+			res := make([]Object, 0, len(o.Value)+len(rhs.Value))
+			res = append(res, o.Value...)
+			res = append(res, rhs.Value...)
+			return &Array{Value: res}, nil
 		}
 	}
 	return nil, ErrInvalidOperator
